@@ -27,6 +27,9 @@ func main() {
 	if root := os.Getenv("VERIF_ROOT"); root != "" {
 		vf.Root = root
 	}
+	if out := os.Getenv("VERIF_OUT"); out != "" { // scratch runs (mutants, seeded changes) keep /verif/evidence untouched
+		vf.Out = out
+	}
 	seed := uint64(1)
 	if s := os.Getenv("VERIF_SEED"); s != "" {
 		if v, err := strconv.ParseInt(s, 10, 64); err == nil {
